@@ -151,6 +151,8 @@ def build(pt):
 
 
 def check_point(pt):
+    from ..core import inputs as _inputs
+    _inputs.process_prelude()   # explored in a process that has already read many other files (see core/inputs.py)
     nv, hs, shape, wrap, text, pol, eng, pl = pt[:8]
     keep_numpy = pt[9] if len(pt) > 9 else False
     textfile, toks, kinds, nullv, r, c = build(pt)
